@@ -126,11 +126,17 @@ func c01RunTransports(c *kit.Ctx) {
 				return
 			}
 			ready <- r.name
+			go func() { // a read that times out in the middle of an item would lose the bytes already taken: end the reader by closing
+				for atomic.LoadInt32(&stop) == 0 {
+					time.Sleep(20 * time.Millisecond)
+				}
+				cl.Close()
+			}()
 			for atomic.LoadInt32(&stop) == 0 {
-				it, err := cl.Next(500 * time.Millisecond)
+				it, err := cl.Next(120 * time.Second)
 				if err != nil {
-					if kit.ErrTimeout(err) {
-						continue
+					if _, torn := err.(*kit.ErrTorn); torn && atomic.LoadInt32(&stop) == 0 {
+						r.fail("torn byte stream: " + err.Error())
 					}
 					return
 				}
@@ -174,6 +180,9 @@ func c01RunTransports(c *kit.Ctx) {
 			for atomic.LoadInt32(&stop) == 0 {
 				it, err := cl.Next(120 * time.Second)
 				if err != nil {
+					if _, torn := err.(*kit.ErrTorn); torn && atomic.LoadInt32(&stop) == 0 {
+						r.fail("torn message: " + err.Error())
+					}
 					return
 				}
 				if it.Frame != nil && it.Frame.Channel == 0 {
@@ -437,6 +446,12 @@ func c01RunTransports(c *kit.Ctx) {
 				typ = 5
 			}
 			size := 40 + (i*37)%1200
+			burst := i > n/3 && i <= n/3+48
+			if burst {
+				// a back-to-back burst of large packets (> the 128 KiB session write buffer within one flush tick):
+				// the buffered connection must keep the byte order when a block does not fit the remaining space
+				size = 9000 + (i*131)%6000
+			}
 			nal := kit.H264NAL(2, typ, size, uint64(id))
 			pk := kit.MakeRTP(kit.ChVideo, 96, true, uint16(i), id, 0x5151, nal)
 			pub.mu.Lock()
@@ -453,7 +468,7 @@ func c01RunTransports(c *kit.Ctx) {
 				pub.mu.Unlock()
 				pubc.WriteFrame(2, ap.Data)
 			}
-			if i%20 == 0 {
+			if i%20 == 0 && !burst {
 				time.Sleep(time.Millisecond)
 			}
 		}
